@@ -68,6 +68,45 @@ CHECKS = {
             "with scipy DOP853 on a harness-side field over the reported period and must close within 1e-6.",
             "A raise of any exception type is accepted as 'raises an error'; closure bound 1e-6 (observed <= 2e-9 on correct families); known finding F15 (vertical family) is listed in known_findings.json.",
             "DESIGN.md C05"),
+    "C16": ("exploration",
+            "exhaustive lattice (Hamiltonian menu x states x step sizes x orders x coupling constants) on the real one-step kernel: finite-difference Jacobian symplecticity, step/unstep reversibility, fixed-omega convergence ladders, long-run energy, recorded sub-step sequence",
+            "For 8 polynomial Hamiltonians (separable and non-separable, degree <= 6) x 3 generic extended states x h in {0.01,-0.05,0.2} (thorough: +-0.01,+-0.05,+-0.2) x orders 2,4,6,8 x omega {0.5,50} (thorough 0.5,5,50) the 12x12 Jacobian of _recursive_update_poly "
+            "is obtained by Richardson central differences and M^T Omega M = Omega is checked for the documented two-form dQ^dP + dX^dY; step(h) then step(-h) must restore the state; with omega fixed the error ladder against a scipy reference must show the declared order; "
+            "8000-20000 steps through the public class must keep the energy error bounded; the executed sub-step sequence is recorded by running the kernel's python source with the three sub-flows replaced by recorders (palindrome, weights sum to 1, triple-jump cancellation condition).",
+            "Known finding F3 (orders 4/6/8 converge with exponent 2: wrong triple-jump exponent) is listed in known_findings.json - the one-line repair breaks the pinned test test_symplectic::test_final_state_error, so it is recorded rather than repaired.",
+            "DESIGN.md C16"),
+    "C17": ("exploration",
+            "differential exploration of program variants: Hamiltonian fast path vs generic path generated by the harness from exact derivatives, all (integrator, event, direction, grid) variants x Hamiltonian menu x states; right-hand sides on a state lattice vs exact derivatives",
+            "hamsys.rhs, _hamiltonian_rhs and dH_dQ/dH_dP are compared with exact derivatives of the polynomial (dict-of-monomials reference) on a 15-point lattice for 8 Hamiltonians; then every program variant {fixed 4,6,8; RK45; DOP853} x {no event, 2 event functions x direction -1,0,+1} x {dense grid, endpoints} "
+            "is executed on the fast path and on a generic system whose vector field source is generated by the harness (compiled by the library's own create_rhs_system): states, returned derivatives, event times and event states must agree to 1e-11/1e-9.",
+            "Both paths use the library's integrator code (the oracle is their agreement plus C02's absolute accuracy checks); quick tier uses 3 Hamiltonians, thorough all 8.",
+            "DESIGN.md C17"),
+    "C10": ("exploration",
+            "exhaustive product of systems x entry points x methods x directions x flips x spans x grid sizes on the real propagation layer and raw integrators, compared with exact / reference flows and round trips; raw grids ascending, descending, zero-span, non-monotone",
+            "A user system with exact flow (rotation + saddle blocks), the CR3BP, the 42-D variational system and a polynomial Hamiltonian are propagated through _propagate_dynsys, System.propagate and raw Integrator.integrate for fixed 4/6/8, adaptive 5/8 and symplectic 2/4/6, "
+            "forward +-1, with and without selective flipping, spans {0,1e-9,0.5,2} (+ t0 != 0), 2..201 samples: returned times must be forward*linspace (non-positive, decreasing for -1), first sample = initial state, every sample on the exact/reference flow at the signed time, "
+            "forward-then-backward returns to the start; raw integrators on descending grids must be right or raise (never a constant/wrong trajectory), non-monotone grids must raise.",
+            "Zero-span grids may be rejected; tolerances derive from the step size and order; non-autonomous systems are outside the backward-flow statement.",
+            "DESIGN.md C10"),
+    "C11": ("exploration",
+            "exhaustive product of event drivers x event functions x directions x parameter lattice (incl. crossing placement inside a step, start on/off the surface) x tolerances x spans on a system with closed-form flow; reference crossings by dense scan + root solve of the exact flow",
+            "Two uncoupled oscillators are integrated as a polynomial Hamiltonian whose frozen third degree of freedom carries the event parameters, so one compiled event function covers affine, oblique, time-based and quadratic events. All 12 drivers (fixed 4/6/8, RK45, DOP853 x generic/Hamiltonian, "
+            "symplectic 2/4) x direction -1/0/+1 x offsets (generic, start exactly on the surface, 1e-9 off on both sides, unreachable) x crossing placement in a step (exactly at a node, node+1e-12, 1/4, 1/2, 1-1e-9, last node of the span) x (xtol,gtol) x span before/after the first admissible crossing: "
+            "reported time within xtol + (gtol+errors)/|dg/dt| of the first admissible exact crossing, state on the exact trajectory, g ~ 0, filtered directions ignored, no crossing => end of span.",
+            "Sub-step double crossings and tangencies are outside sign-change detection and excluded; an exact zero at a step end in the filtered-out direction is don't-care; error budget uses the driver's own measured global error.",
+            "DESIGN.md C11"),
+    "C04": ("exploration",
+            "exhaustive sweep catalogue pairs + mu ladder x L1..L5 against an mpmath reference (equilibrium residual, quintic, eigenvalues of the numerically differentiated Jacobian, symplecticity / H2 reduction of the normal-form matrix, Taylor coefficients c_n)",
+            "All 18 catalogue pairs (enumerated from Constants.orbital_distances at run time; the property text says 19, the tree has 18) and a log ladder of 24 (thorough 40) mass ratios from 2e-9 to 0.5 plus Routh +- and special values, for all five points: the point is returned, is an equilibrium of the reference field, "
+            "gamma matches the distance to its primary and the equilibrium condition, lambda/omegas equal the eigenvalues of the reference Jacobian (40-digit central differences + mpmath eig), C^T J C = J, C^T Hess(H2) C has the normal-form pattern, c_2..c_8 equal the Taylor coefficients of the primaries' potential.",
+            "L4/L5 above Routh may reject; orientation of the local axis for odd c_n is pinned by C07, not here; tolerances 1e-7 relative on modes.",
+            "DESIGN.md C04"),
+    "C07": ("exploration",
+            "exhaustive lattice mu x {L1..L5} x degree x 76 phase-space directions with radius ladders: exponent of the energy mismatch and of the pushed-forward vector-field mismatch measured on the real polynomial Hamiltonian and the library's own local->synodic map against a reference CR3BP energy/field",
+            "For each mass ratio, point (collinear and triangular expansions) and degree N the polynomial built by _build_physical_hamiltonian_* is evaluated along 12 axes + 64 weighted corner directions on a 5-rung radius ladder: (E(S(z))-E(S(0)))/gamma^2 - H_N(z) must shrink like r^(N+1) and J grad H_N pushed forward by dS "
+            "must match the reference CR3BP field at S(z) like r^N; the local origin must map to the point at rest and synodic2local(local2synodic(z)) = z. Exponents (not constants) are the oracle, so a wrong sign, frame, coefficient c_n or scaling shows as exponent 1-2.",
+            "radius 0.35 in local units; exponent = median of the last pairwise ratios above the rounding floor, threshold declared-0.75; quick tier degrees {2,3,4,6,8} and 3 mass ratios, thorough 2..10 and 5.",
+            "DESIGN.md C07"),
 }
 
 NOT_YET = {
